@@ -41,6 +41,25 @@ scen.append(S("invalidate-two-chunks",2,[st("Start",g=1,lo=1,hi=6),st("LoadBegin
   st("Start",g=2,lo=2,hi=6),st("LoadBegin",g=2),st("LoadEnd",g=2,ok=True),st("Post",g=2),st("GetEnd",g=2),
   st("InvBegin",i=2,T=[3]),st("InvApply",i=2),
   st("Start",g=3,lo=1,hi=6),st("LoadBegin",g=3),st("LoadEnd",g=3,ok=True),st("Post",g=3),st("GetEnd",g=3)]))
+# shard level: a bucket is removed (as trim does) while invalidate is between two buckets and its cursor points to it
+scen.append(S("invalidate-vs-removal-of-next-bucket",2,[st("Start",g=1,lo=1,hi=2),st("LoadBegin",g=1),st("LoadEnd",g=1,ok=True),st("Post",g=1),st("GetEnd",g=1),
+  st("Start",g=2,key="j",lo=1,hi=2),st("LoadBegin",g=2),st("LoadEnd",g=2,ok=True),st("Post",g=2),st("GetEnd",g=2),
+  st("InvBegin",i=1,T=[1]),st("RemoveBucket",key="~gate2"),st("InvApply",i=1),
+  st("Start",g=3,lo=1,hi=2),st("LoadBegin",g=3),st("LoadEnd",g=3,ok=True),st("Post",g=3),st("GetEnd",g=3),
+  st("Start",g=4,key="j",lo=1,hi=2),st("LoadBegin",g=4),st("LoadEnd",g=4,ok=True),st("Post",g=4),st("GetEnd",g=4)]))
+# the same deeper in the list: parked at the bucket of k, the bucket of j goes, then m is asked
+scen.append(S("invalidate-vs-removal-mid-list",2,[st("Start",g=1,lo=1,hi=4),st("LoadBegin",g=1),st("LoadEnd",g=1,ok=True),st("Post",g=1),st("GetEnd",g=1),
+  st("Start",g=2,key="j",lo=1,hi=4),st("LoadBegin",g=2),st("LoadEnd",g=2,ok=True),st("Post",g=2),st("GetEnd",g=2),
+  st("Start",g=3,key="m",lo=2,hi=3),st("LoadBegin",g=3),st("LoadEnd",g=3,ok=True),st("Post",g=3),st("GetEnd",g=3),
+  st("InvBegin",i=1,T=[1,2],at="k"),st("RemoveBucket",key="j"),st("InvApply",i=1),
+  st("Start",g=4,key="m",lo=1,hi=4),st("LoadBegin",g=4),st("LoadEnd",g=4,ok=True),st("Post",g=4),st("GetEnd",g=4),
+  st("Start",g=5,key="j",lo=1,hi=4),st("LoadBegin",g=5),st("LoadEnd",g=5,ok=True),st("Post",g=5),st("GetEnd",g=5),
+  st("Start",g=6,lo=1,hi=4),st("LoadBegin",g=6),st("LoadEnd",g=6,ok=True),st("Post",g=6),st("GetEnd",g=6)]))
+# reset while invalidate is parked: everything is dropped, later requests reload
+scen.append(S("invalidate-vs-reset",2,[st("Start",g=1,lo=1,hi=2),st("LoadBegin",g=1),st("LoadEnd",g=1,ok=True),st("Post",g=1),st("GetEnd",g=1),
+  st("Start",g=2,key="j",lo=1,hi=2),st("LoadBegin",g=2),st("LoadEnd",g=2,ok=True),st("Post",g=2),st("GetEnd",g=2),
+  st("InvBegin",i=1,T=[1],at="k"),st("RemoveBucket",key="j"),st("Start",g=3,key="j",lo=1,hi=2),st("LoadBegin",g=3),st("LoadEnd",g=3,ok=True),st("Post",g=3),st("GetEnd",g=3),
+  st("InvApply",i=1),st("Start",g=4,key="j",lo=1,hi=2),st("GetEnd",g=4),st("Start",g=5,lo=1,hi=2),st("LoadBegin",g=5),st("LoadEnd",g=5,ok=True),st("Post",g=5),st("GetEnd",g=5)]))
 # memory: a Signal that arrives while the trim goroutine is finishing a pass is lost; it must not go to sleep over the soft limit
 scen.append(S("mem-trim-sleeps-over-soft-limit",2,[st("Start",g=1,lo=1,hi=2),st("LoadBegin",g=1),st("LoadEnd",g=1,ok=True),st("Post",g=1),st("GetEnd",g=1),
   st("HoldTrim"),st("SetLimitsRel",under=1,room=200),st("WaitTrimParked"),
